@@ -279,7 +279,8 @@ class DBStorage(BaseStorage):
             tags = set()
             for tag in event.tags:
                 if tag[0] in ("delegation", "expiration"):
-                    tags.add((tag[0], tag[1]))
+                    if len(tag) > 1:
+                        tags.add((tag[0], tag[1]))
                 elif len(tag[0]) == 1:
                     tags.add((tag[0], tag[1] if len(tag) > 1 else ""))
             if tags:
